@@ -10,6 +10,7 @@
   unused slot between live blocks.
 -/
 import TdfProofs.Lemmas.Layout
+import TdfProofs.Lemmas.Foreign
 namespace Tdf.C07
 
 theorem add_rejected_unchanged (s : TdfSt) (b : BlkArg) (c : Str) (now : Int) (e : Err)
@@ -90,5 +91,29 @@ theorem replace_outcome (l : Lay) (ok : l.Ok) (b : BlkArg) (c : Option Str) (now
   simp only [Lay.specStep]
   repeat' split
   all_goals simp_all
+
+
+/-- EVERY state, any table — entries in any order, gaps, unused slots between live entries (files of other software): a replace
+    that reports an error has changed neither the object nor the file, provided the type to replace occurs once in the table.
+    "In particular a failed replace never loses the block it was meant to replace" — also when the reason is an unused slot
+    between live blocks, which `add_block` would only notice after the old block is gone. -/
+theorem replace_rejected_unchanged_any (s : TdfSt) (b : BlkArg) (c : Option Str) (now : Int) (e : Err)
+    (hty : b.typ ≠ 0)
+    (hone : hasType b.typ (eraseFirst (fun x => x.typ == b.typ) s.entries) = false)
+    (h : (replaceBlock s b c now).2 = .err e) : (replaceBlock s b c now).1 = s :=
+  Tdf.replace_rejected_unchanged_any s b c now e hty hone h
+
+/-- the rejection cause "an unused slot lies between live blocks", for replace, on every state: it is reported with the state as it was -/
+theorem replace_hole_refused (s : TdfSt) (b : BlkArg) (c : Option Str) (now : Int) (old : Entry) (pl : Bytes)
+    (hfind : s.entries.find? (fun x => x.typ == b.typ) = some old) (hchk : checkArg b (c.getD old.comment) now = .ok pl)
+    (hh : holeIn (eraseFirst (fun x => x.typ == b.typ) s.entries) = true) :
+    replaceBlock s b c now = (s, .err .hole) := by
+  unfold replaceBlock
+  simp [hfind, hchk, hh]
+
+/-- such a state exists: table [events, unused, EMG] — replacing the events block would leave [unused, EMG, unused] -/
+example : holeIn (eraseFirst (fun x => x.typ == 16) [⟨16, 1, 928, 8, 0, 0, 0, []⟩, ⟨0, 0, 1000, 0, 0, 0, 0, []⟩, ⟨11, 1, 936, 64, 0, 0, 0, []⟩]) = true := by decide
+/-- … while replacing the EMG block of the same table is fine: what remains is [events, unused] -/
+example : holeIn (eraseFirst (fun x => x.typ == 11) [⟨16, 1, 928, 8, 0, 0, 0, []⟩, ⟨0, 0, 1000, 0, 0, 0, 0, []⟩, ⟨11, 1, 936, 64, 0, 0, 0, []⟩]) = false := by decide
 
 end Tdf.C07
